@@ -28,7 +28,13 @@ def main():
             "engine": "mc",
             "level_claimed": {
                 "category": "model_checking",
-                "text": m.get("level_text", m["rule"]),
+                "text": m.get("level_text") or (
+                    "Bounded exhaustive exploration on the real code: " + m["rule"] + ". A green run is a coverage statement -- "
+                    "no execution within the bounds recorded in the evidence file (coverage.bounds, exhaustive=true, no caps) "
+                    "violates the property -- not a proof for unbounded terms/documents; the bounds follow the small-scope "
+                    "argument of DESIGN.md 3.2 (per-item independent, structurally recursive code) and were widened wherever a "
+                    "seeded change escaped them (DESIGN.md 12). This is the right level because the property is universally "
+                    "quantified over programs/inputs/histories that the unit tests only sample."),
                 "design_ref": "DESIGN.md section 4, " + pid,
             },
             "level_note": "; ".join(m.get("assumptions", [])) or "see DESIGN.md section 6",
